@@ -197,6 +197,7 @@ def run(ctx):
     ctx.count('corpus', len(cases))
     n = ctx.n(60, 600)
     cases += [R.finder_case(ctx.rng) for _ in range(ctx.n(10, 60))]
+    cases += [R.select_case(ctx.rng) for _ in range(ctx.n(8, 40))]
     cases += [R.gen_case(ctx.rng) for _ in range(n)]
     check_cases(ctx, cases)
     check_request_address(ctx, ctx.n(200, 2000))
@@ -221,6 +222,7 @@ def search(ctx):
     rng = random.Random(ctx.seed * 7919 + 23)
     cases = [d['case'] for d in ctx.disagreements[:30] if isinstance(d['case'], dict) and 'adds' in d['case']]
     cases += [R.finder_case(rng) for _ in range(40)]
+    cases += [R.select_case(rng) for _ in range(30)]
     cases += [R.gen_case(rng) for _ in range(ctx.n(150, 1000))]
     for case, r, err in R.run_many(cases, procs=PROCS):
         if err is not None:
